@@ -30,13 +30,8 @@ def float_world(scen, seed):
         rng = random.Random(f'native/{scen}/{seed}/{attempt}')
         try:
             U = Universe(F, rng, **kw)
-            if scen == 'shift_y':
-                U.drop_inputs('betax', 'betaz', 'dtbetax', 'dtbetaz', 'dtbetay')
-                U.base['dtbeta'] = arr([J.const(F, 0)] * 3)
-            if scen == 'noshift':
-                U.drop_inputs('betaup3', 'dtbetaup3')
-            if scen == 'default':
-                U.drop_inputs('alpha', 'dtalpha')
+            from .e1run import shape_inputs
+            shape_inputs(scen, U, F)
             return F, U, Env(F)
         except NeedResample:
             continue
